@@ -117,6 +117,11 @@ class IrqMonitor:
                     if src_mask is not None and cleared & ~src_mask:
                         self._v("reti_clears_other_status_bits", delivered=top.get("source"), isr_before=a["isr"],
                                 isr_after=b["isr"])
+                    elif not top.get("sw") and "eligible" in top and cleared & ~top["eligible"]:
+                        # whatever the model calls the delivered source: a status bit that was masked (or not pending)
+                        # when the interrupt was taken was not delivered, so returning must not retire it
+                        self._v("reti_retires_request_not_delivered", label=top.get("source"), eligible_at_entry=top["eligible"],
+                                isr_before=a["isr"], isr_after=b["isr"])
         # ---------------- entry ------------------------------------------------------------------------------
         if entry:
             self.stats["entries"] += 1
@@ -128,6 +133,15 @@ class IrqMonitor:
                 self._v("entered_with_master_enable_clear", pushed_imr=p_imr, isr=isr_at, pc=a["pc"])
             if not (p_imr & isr_at & 0x7F):      # any of the seven sources (bits 4-6: serial/external, host-raised only)
                 self._v("entered_without_enabled_pending_source", pushed_imr=p_imr, isr=isr_at, pc=a["pc"])
+            else:
+                # "... only if the SOURCE's mask bit is set and ITS status bit is pending": the source the model says it
+                # delivered must itself be one of the enabled pending ones (a masked higher-priority bit that is merely
+                # set must not be the one that is booked - and later retired by RETI)
+                # (the label itself is bookkeeping - the Python model keeps the label of the last host event - so it is
+                #  only counted here; what is judged is its consequence at RETI, see "reti_retires_request_not_delivered")
+                smask = {"MTI": 1, "STI": 2, "KEY": 4, "ONK": 8}.get(b.get("source") or "", None)
+                if smask is not None and not (smask & p_imr & isr_at):
+                    self.stats["source_label_not_eligible"] = self.stats.get("source_label_not_eligible", 0) + 1
             f_at = mid["f"] if reti_then_entry else b["f"]
             if (p_f & 3) != f_at:
                 self._v("pushed_flags_wrong", pushed=p_f, f=f_at)
@@ -157,7 +171,7 @@ class IrqMonitor:
             if b["irq_total"] != a["irq_total"] + 1:
                 self._v("entry_without_counter", before=a["irq_total"], after=b["irq_total"])
             self.frames.append({"pc": p_pc, "f": p_f & 3, "imr": p_imr, "S": mid["S"] if reti_then_entry else s_before,
-                                "source": b.get("source")})
+                                "source": b.get("source"), "eligible": p_imr & isr_at & 0x0F})
             self.eligible_run = 0
         else:
             if b["irq_total"] != a["irq_total"] and executed != OP_IR:
